@@ -93,7 +93,7 @@ def setter_scenarios(cls='Derivative', dim=None, tier='quick'):
         h, f = mk(m1, n0, 2, [('method', m2)], (m2, n0, 2))
         out.append(Scenario('%s(%s) ; call ; method=%s ; call' % (cls, m1, m2), h, f, 'method setter'))
     if cls == 'Derivative':
-        for n1, seq in ((1, [3]), (2, [0, 2]), (1, [0, 1]), (3, [1]), (1, [2, 4])):
+        for n1, seq in ((1, [3]), (2, [0, 2]), (1, [0, 1]), (3, [1]), (1, [2, 4]), (1, [0]), (2, [0]), (0, [2])):
             ops = [('n', v) for v in seq]
             h, f = mk('central', n1, 2, ops, ('central', seq[-1], 2))
             out.append(Scenario('Derivative(n=%d) ; call ; %s ; call' % (n1, ' ; '.join('n=%d' % v for v in seq)), h, f,
